@@ -652,6 +652,14 @@ func ckiForms(rng *rand.Rand) (forms [][]byte, classes []string) {
 		copy(b[5:9], put32(st))
 		add(b, "full")
 	}
+	// flag octets with bits outside the two defined ones (0x01 attestation, 0x02 MFA not used): a blob that
+	// carries them is read with exactly that octet and re-serialises to the same bytes (C14-r9-2)
+	for _, fl := range []byte{0x04, 0x80, 0xFC, 0xFF, 0x07, byte(4 + rng.UintN(252))} {
+		add([]byte{1, fl}, "short-reserved-flags")
+		b := full(0)
+		b[1] = fl
+		add(b, "full-reserved-flags")
+	}
 	add(full(1), "full-ext")
 	add(full(2), "full-ext")
 	add(full(1+rng.IntN(40)), "full-ext")
